@@ -62,3 +62,11 @@ META["C01"] = {
     "note": "Trusts the reference store (rlib/model.go) and reference masked update (lib/refmask.go); single caller; idempotent id interceptors; update masks strictly broader than the writable fields are not generated; the message returned alongside an error is not compared.",
     "technique": "model-based stateful property testing (rapid) + bounded-exhaustive call sequences against a reference register/map",
 }
+META["C04"] = {
+    "text": ("Model-based history testing of the backpressured change stream: rapid generates single-writer histories of successful and failing writes (all options, same-value writes, "
+             "remove/re-add chains, with and without WithWriteTime) on Values and Collections with empty/one/many initial items, watched by 1-3 backpressured subscriptions with drawn "
+             "updates-only / read mask / WithNoDuplicates settings. After a sentinel write every subscription's log must equal the reference edit script exactly: count, order, id, kind, "
+             "old and new value (under the read mask), seed and last-seed flags, and change time (exact when a write time is given, otherwise inside the fake clock's tick interval of the call)."),
+    "note": "Trusts the reference store and event model (rlib); one writer at a time; consumers always receive; with an updates-only subscription and an equivalence, a first write that leaves the masked value unchanged is unspecified and ends the comparison for that subscription.",
+    "technique": "model-based history testing with rapid: exact event-log equality against a reference edit script, sentinel-synchronised",
+}
